@@ -1,10 +1,10 @@
 SPECIFICATION SSpec
-CONSTANTS Procs = {"p1", "p2"}
+CONSTANTS Layout = "multi"
           Cycles = 1
           MaxFail = 1
-          Same = TRUE
-          Pre = FALSE
+          Pre = TRUE
           Modes = {"ok", "raise", "cancel"}
-          MaxExc = 1
+          MaxExc = 0
+          Atomic = TRUE
 INVARIANT Emit
 CHECK_DEADLOCK FALSE
